@@ -250,6 +250,10 @@ def run_check(modname, tier, seed, canary=None, quiet=False):
     mod = importlib.import_module(modname)
     pid = mod.PROPERTY_ID
     tasks = mod.tasks(tier, seed)
+    if os.environ.get("VERIF_TASKS"):  # debugging aid only: never set by a registered command (check.py then writes no evidence)
+        import re as _re
+
+        tasks = [t for t in tasks if _re.search(os.environ["VERIF_TASKS"], t["id"])]
     by_id = {t["id"]: t for t in tasks}
     budget = int(os.environ.get("VERIF_BUDGET_S") or getattr(mod, "BUDGET_S", {"quick": 600, "thorough": 3600})[tier])
     deadline = t0 + budget
@@ -272,6 +276,7 @@ def run_check(modname, tier, seed, canary=None, quiet=False):
     outcomes = Counter()
     aborted = Counter()
     per_task_paths = Counter()
+    per_task_wall = Counter()
     functions = {}
     failed = []
     nonexh = []
@@ -318,6 +323,7 @@ def run_check(modname, tier, seed, canary=None, quiet=False):
                 outcomes.update(r["outcomes"])
                 aborted.update(r["aborted"])
                 per_task_paths[task["id"]] += r["paths"]
+                per_task_wall[task["id"]] += r.get("wall", 0.0)
                 functions.update(r["functions"])
                 ifconv = r["ifconv"] or ifconv
                 nonexh.extend((task["id"], n) for n in r["nonexhaustive"])
@@ -516,8 +522,8 @@ def run_check(modname, tier, seed, canary=None, quiet=False):
     if not quiet:
         if os.environ.get("VERIF_VERBOSE"):
             left = Counter(it[0]["id"] for it in list(pending) + list(inflight.values()))
-            for tid, n in per_task_paths.most_common(25):
-                print("  task %-40s paths=%d leftover_items=%d" % (tid, n, left.get(tid, 0)))
+            for tid, w in per_task_wall.most_common(40):
+                print("  task %-40s paths=%d worker_s=%.1f leftover_items=%d" % (tid, per_task_paths[tid], w, left.get(tid, 0)))
         for l in lines:
             print(l)
         print(
